@@ -284,6 +284,81 @@ def run():
     decide('validate_denom', lambda s: z3.And(z3.Length(s) > 3, z3.InRe(s, ALPHA)), 'len > 3 and all bytes in [A-Za-z]')
     decide('validate_ibc_denom', lambda s: z3.And(z3.PrefixOf(z3.StringVal('ibc/'), s), z3.Length(s) == 68), 'it starts with ibc/ and is 68 bytes long')
 
+    # ---- validate_address: accepted exactly when bech32::decode succeeds AND the decoded prefix equals the section's prefix ----
+    # bech32::decode is an uninterpreted pair (dec_ok: String -> Bool, hrp: String -> String): the library's insides are not claimed
+    # (DESIGN section 7); what is decided, for every address and prefix string, is how the repository USES the decoder's verdict.
+    try:
+        dec_ok = z3.Function('bech32_decodes', z3.StringSort(), z3.BoolSort())
+        hrp = z3.Function('bech32_hrp', z3.StringSort(), z3.StringSort())
+
+        def s_bech32_decode(eng, path, argv, callee):
+            e = strval(path, argv[0])
+            o = enum_obj(z3.If(dec_ok(e), z3.IntVal(0), z3.IntVal(1)))
+            pay = Obj('p%d' % next(Obj.cnt))
+            tup = Obj('t%d' % next(Obj.cnt))
+            tup.fields[0] = SObj(hrp(e))
+            pay.fields[0] = tup
+            o.fields[('as', 'Ok')] = pay
+            o.fields[('as', 'Err')] = Obj('errv%d' % next(Obj.cnt))
+            return o
+
+        def s_addr_unchecked(eng, path, argv, callee):
+            return SObj(strval(path, argv[0]))
+
+        a, pfx = z3.String('address'), z3.String('prefix')
+        eng = Engine([mod], [(r'^bech32::decode$', s_bech32_decode), (r'^Addr::unchecked::<&str>$|Addr::unchecked::<', s_addr_unchecked)] + SUMM + summ.BASE)
+        f = mod.get('validate_address')
+        if f is None:
+            raise mirx.Unsupported('function not found: validate_address')
+        paths = eng.relation(f, [SObj(a), SObj(pfx)])
+        info['validate_address'] = dict(paths=len(paths), opaque_calls=sorted(eng.opaque_calls), unsupported=eng.unsupported[:5])
+        if eng.opaque_calls or eng.unsupported:
+            results.append(dict(name='validate_address: every call on the path is summarised', result='inconclusive: opaque calls %s %s' % (sorted(eng.opaque_calls)[:4], eng.unsupported[:2]), ok=False, inconclusive=True, prop='C14'))
+        else:
+            oks, same, pan, undec = [], [], [], 0
+            for p in paths:
+                c = z3.And(*p.cond) if p.cond else z3.BoolVal(True)
+                if p.outcome[0] == 'panic':
+                    pan.append(c)
+                    continue
+                if p.outcome[0] != 'return':
+                    continue
+                d = z3.simplify(p.outcome[1].disc())
+                if not z3.is_int_value(d):
+                    undec += 1
+                elif d.as_long() == 0:
+                    got = p.outcome[1].get(('as', 'Ok')).get(0)
+                    if not isinstance(got, SObj):
+                        undec += 1
+                        continue
+                    oks.append(c)
+                    same.append(z3.Implies(c, got.e == a))
+            if undec or not oks:
+                results.append(dict(name='validate_address: the result variant and the returned address are decided on every path, some path returns Ok', result='inconclusive', ok=False, inconclusive=True, prop='C14'))
+            else:
+                acc = z3.Or(*oks)
+                for name, neg in [
+                    ('validate_address: accepted exactly when the bech32 decoder accepts the string AND the decoded human-readable part equals the required prefix, for every address and prefix', acc != z3.And(dec_ok(a), hrp(a) == pfx)),
+                    ('validate_address: the accepted address is returned verbatim, for every address and prefix', z3.Not(z3.And(*same))),
+                    ('validate_address: never panics, for every address and prefix', z3.Or(*pan) if pan else z3.BoolVal(False)),
+                ]:
+                    sol = z3.Solver()
+                    sol.set('timeout', 60000)
+                    sol.add(*defs)
+                    sol.add(z3.InRe(a, UTF8), z3.InRe(pfx, UTF8))
+                    sol.add(neg)
+                    t0 = time.time()
+                    r = sol.check()
+                    res = dict(name=name, result=str(r), ok=(r == z3.unsat), time_s=round(time.time() - t0, 3), prop='C14', props=['C14', 'C16'] if 'never panics' in name else ['C14'])
+                    if r != z3.unsat:
+                        # the decoder is uninterpreted, so a model has no byte-exact replay: engine S's longer-prefix / swapped-prefix matrix gives the verdict
+                        res['inconclusive'] = True
+                        if r == z3.sat:
+                            res['model'] = str(sol.model())[:300]
+                    results.append(res)
+    except (mirx.Unsupported, AssertionError, ValueError, KeyError, AttributeError) as e:
+        results.append(dict(name='MIR executor reaches validate_address', result='inconclusive: ' + str(e)[:200], ok=False, inconclusive=True, prop='C14'))
+
     # ---- UnsafeProtocolChainConfig::validate: channel and staked-asset denom, for every string ----
     try:
         vname = None
